@@ -134,10 +134,11 @@ func c18Profile(tier string) *eng.Profile {
 func init() {
 	profileBuilders = append(profileBuilders, func(tier string) { Register(c18Profile(tier)) })
 	Registry["C18"] = func(r *Run) {
-		r.Rule = "E1: Backup(newdir) after every history of <=depth-1 ops of the mixed alphabet in every index mode x {FileIO,MMap}; the copy is opened with the same options and its full observation must equal the reference model at backup time; the source's observation must be unchanged. E3: every schedule with <= bound preemptions of a backup thread against two writer threads whose records land in different segments (every file open/create/copy of CopyDir is a scheduling point); the copy's observation is judged as a read-only transaction: it must equal a state the database had during the backup's interval (strict serializability)"
+		r.Rule = "E1: Backup(newdir) after every history of <=depth-1 ops of the mixed alphabet in every index mode x {FileIO,MMap}; the copy is opened with the same options and its full observation must equal the reference model at backup time; the source's observation must be unchanged; the same after every history of a value-shape grid (values of zero bytes / 0xff bytes / 'x' of 12 sizes around 512, 4096, 8192 and 16384 bytes x 4 layouts incl. a sealed segment, segment size 24576). E3: every schedule with <= bound preemptions of a backup thread against two writer threads whose records land in different segments (every file open/create/copy of CopyDir is a scheduling point); the copy's observation is judged as a read-only transaction: it must equal a state the database had during the backup's interval (strict serializability)"
 		r.Assume = []string{"queries whose answer on the source already disagrees with the model are excluded (other properties' defects)"}
 		r.Required = []string{"backup"}
 		r.Explore(c18Profile(r.Tier), "C18")
+		runC18Values(r)
 		bound, max := 2, 25000
 		if r.Tier == "thorough" {
 			bound, max = 3, 300000
